@@ -72,6 +72,39 @@ def programs(tier: str):
         for combo in itertools.combinations_with_replacement(range(len(beh3)), 3):
             for ending, cancels in bodies:
                 yield {"block": {"kind": "ascope", "supply": [], "disp": [dict(beh3[i]) for i in combo], "pause": bool(cancels), "ending": ending}, "cancels": cancels}
+    # MANY disposables (4, 5, 6, 9; thorough 13, 17): all well-behaved except one position (every
+    # position x every behaviour) or two positions (first/last, neighbours, first/middle x a reduced
+    # behaviour set): an implementation that enters / exits in batches must treat every batch alike
+    behm = [b for b in _behaviours(False) if b["yields"] == "none"]
+    okb = {"enter": "ok", "exit": "ok", "yields": "none"}
+    small = [b for b in behm if (b["enter"], b["exit"]) in (("ok", "raise"), ("raise", "ok"), ("susp_ok", "ok"), ("ok", "susp_ok"), ("ok", "susp_raise"))]
+    for k in (4, 5, 6, 9) if tier == "quick" else (4, 5, 6, 7, 9, 13, 17):
+        for pos in range(k):
+            for b in behm:
+                if b["enter"] == "ok" and b["exit"] == "ok":
+                    continue
+                for ending, cancels in bodies:
+                    if k == 9 and tier == "quick" and pos not in (0, 2, 3, 4, 7, 8):
+                        continue
+                    disp = [dict(okb) for _ in range(k)]
+                    disp[pos] = dict(b)
+                    yield {"block": {"kind": "ascope", "supply": [], "disp": disp, "pause": bool(cancels), "ending": ending}, "cancels": cancels}
+        for p1, p2 in {(0, k - 1), (0, 1), (k - 2, k - 1), (0, k // 2), (2, 3), (3, 4 % k)}:
+            if p1 == p2:
+                continue
+            for b1 in small:
+                for b2 in small:
+                    for ending, cancels in bodies:
+                        if cancels and tier == "quick" and k > 5:
+                            continue
+                        disp = [dict(okb) for _ in range(k)]
+                        disp[p1], disp[p2] = dict(b1), dict(b2)
+                        yield {"block": {"kind": "ascope", "supply": [], "disp": disp, "pause": bool(cancels), "ending": ending}, "cancels": cancels}
+        # one of many yields a state
+        for pos in (0, k - 1, 3):
+            disp = [dict(okb) for _ in range(k)]
+            disp[pos] = {"enter": "ok", "exit": "ok", "yields": "one"}
+            yield {"block": {"kind": "ascope", "supply": [], "disp": disp, "pause": False, "ending": "return"}, "cancels": 0}
     # two events in one loop iteration (two disposables finishing a step, or one of them and the
     # cancellation of the body)
     beh2 = [b for b in _behaviours(False) if b["yields"] == "none"]
